@@ -3,11 +3,41 @@
 import json, sys
 ENV = "GOFLAGS=-mod=mod GOPROXY=off GOSUMDB=off GOTOOLCHAIN=local"
 claimed = {
+ "C04": dict(
+   text="Exhaustive preemption-bounded exploration of concurrent cache histories (update/insert/invalidate/SetMaximum, weight changes; caller-runs and default executors, capacity 1-3): at quiescence after CleanUp the total weight is within GetMaximum, oversized entries are gone, zero-weight entries were never evicted for size.",
+   note="2-3 threads x 1-2 ops, preemption bound 2 (quick) / 3 (thorough); SC interleavings at sync/atomic granularity.",
+   technique="stateless model checking of the implementation: controlled scheduler + preemption-bounded DFS, quiescence invariant",
+   ref="5/C04"),
+ "C05": dict(
+   text="Same exploration with an injected structural audit at quiescence: every live table node is linked exactly once in the deque matching its queue type (and in one timer-wheel slot), every linked node is the live table node of its key, per-queue weight sums equal the running totals; public views (WeightedSize, EstimatedSize, Hottest/Coldest vs All) agree.",
+   note="Audit code is verification-only (build tag verif, injected by overlay); bounds as C04.",
+   technique="stateless model checking of the implementation: controlled scheduler + preemption-bounded DFS, structural audit",
+   ref="5/C05"),
+ "C06": dict(
+   text="Same exploration with an event ledger: every value ever installed is either present or was delivered exactly once to OnAtomicDeletion and exactly once to OnDeletion, with its key, a cause justified by what removed it, equal causes in both handlers, and per-key atomic order consistent with install order.",
+   note="Unique value per write makes the ledger a set comparison; bounds as C04.",
+   technique="stateless model checking of the implementation: controlled scheduler + preemption-bounded DFS, event ledger",
+   ref="5/C06"),
+ "C14": dict(
+   text="All interleavings (preemption bound 1-2 quick, 2-3 thorough) of writers, readers, CleanUp and every other holder of the eviction lock with the default executor (spawned maintenance goroutines are managed threads): when every goroutine has finished and without any further cache call the write buffer is empty, the drain status is idle, notifications are delivered and the bound holds; deadlock/livelock are violations.",
+   note="MaximumSize 2-8, 2-3 threads; the executor's `go` is turned into a managed thread by the overlay.",
+   technique="stateless model checking of the implementation: controlled scheduler + preemption-bounded DFS over the drain-status protocol",
+   ref="5/C14"),
+ "C15": dict(
+   text="All interleavings (pb 2-3 quick, 3-4 thorough) of get/compute/delete/range/clear on the real table with forced bucket and meta-byte collisions, across grow, shrink, clear and two concurrent growers: history linearizable against a map (Wing-Gong search), callbacks exactly once, Size == keys and nothing lost at quiescence, Range weakly consistent (no duplicates, no stale entries, nothing present throughout is missed).",
+   note="Small-scope table constants (2 root buckets) in most scenarios, native 32-bucket table in thorough; hashes chosen by the harness.",
+   technique="stateless model checking of the implementation: controlled scheduler + preemption-bounded DFS + linearizability search",
+   ref="5/C15"),
  "C16": dict(
    text="Exhaustive preemption-bounded exploration (all interleavings of 2-3 producers and the consumer on the real MPSC queue at sync/atomic granularity, pb<=2-3 quick, pb<=3-5 thorough) across chunk switches and the full boundary; oracle: exactly-once, per-producer order, justified refusals, termination.",
    note="SC interleavings of the intercepted atomics; small queue capacities (2..16); plain accesses assumed race-free.",
    technique="stateless model checking of the implementation: controlled scheduler + preemption-bounded DFS",
    ref="5/C16"),
+ "C17": dict(
+   text="All interleavings of 2-3 recorders with the draining consumer on the real striped ring buffer, with the ring pre-positioned at wrap-around and full, first-use initialisation, stripe attach and table doubling (random stripe answers as environment choices): delivered entries are a sub-multiset of the successfully recorded ones, never twice, Len within capacity, everything recorded is delivered by a drain at quiescence.",
+   note="Ring size 4 (small-scope build) and 16 (native); pb 2, env deviations 2 (quick).",
+   technique="stateless model checking of the implementation: controlled scheduler + preemption/deviation-bounded DFS",
+   ref="5/C17"),
 }
 props = [json.loads(l) for l in open("/verif/properties.jsonl")]
 checks, na = [], []
